@@ -1,8 +1,8 @@
 SPECIFICATION Spec
 CONSTANTS
-  Worker = {w1, w2}
-  Rounds = 3
-  MaxHelpers = 3
+  Worker = {w1, w2, w3}
+  Rounds = 2
+  MaxHelpers = 2
   Variant = "ok"
   DupRounds = {1, 2}
 INVARIANT SingleRunner
